@@ -673,6 +673,7 @@ func (x *Exec) store(st *State, p *Val, v *Val, pos token.Pos, in ssa.Instructio
 	case p.FP != nil:
 		x.guardCheck(st, p.FP, true, pos)
 		st.storePath(p.FP.Root, p.FP.Base, strings.Join(p.FP.Path, "."), p.FP.T, x.toHeapVal(st, v, p.FP.T))
+		x.checkStrong(st, p.FP.Root, p.FP.Base, "store:"+p.FP.Path[0], pos)
 	case p.EP != nil:
 		if len(p.EP.Path) > 0 {
 			ev := st.loadElem(p.EP.Elem, p.EP.Base, p.EP.Idx)
